@@ -138,14 +138,24 @@ CLAIMED["C03"] = dict(
     text="Lean 4 theorems for any number of threads, tasks, throw scripts and schedules of the dispatcher's catch/cancel/finalise loop: at most "
          "one exception stored per context epoch, only by the exchange winner, and it was thrown by that group; every task finalised exactly "
          "once (partial: programs without a throwing join; the negation witness for a throwing join is proved and is a recorded finding); "
-         "the waiting call returns or rethrows only after the counter is 0 and all other threads are idle; nothing swallowed; no exception "
-         "leaves a worker; the group is reusable after wait; reduction bodies destroyed once and never joined when cancelled. Tie: E-SHIM on "
-         "the whole instrumented runtime with fault schedules (k-th body / range split / copy / join / item copy throws) over 23 programs; "
-         "event logs validated against the model; seven independent monitors.",
-    note="Trusted: Lean kernel, standard axioms, E-SHIM runtime, harness/c03, sampled correspondence. Four genuine defects are listed in "
-         "KNOWN_FINDINGS.txt (throwing join, throwing range split in deterministic reduce, throwing message copy in flow graph, cancelled "
-         "pipeline leaking parked tokens). C++ unwinding inside user code is not modelled.",
-    technique="Lean 4 proof (interleaving model of the exception path) + E-SHIM fault enumeration + trace validation",
+         "the waiting call returns or rethrows only after the counter is 0 and all other threads are idle; nothing swallowed, with the exact "
+         "characterisation of when an exception is dropped; no exception leaves a worker; the group is reusable after wait; reduction bodies "
+         "destroyed once and never joined when cancelled. Client models, each parametrised by catch/rethrow skeletons regenerated from the source: "
+         "task_arena::execute (exception leaves exactly once on the calling thread after the functor ended, whoever ran it), graph::wait_for_all "
+         "(a wrapper around the dispatcher model: handler in a quiescent state, flags, reset before reuse), parallel_pipeline token ownership "
+         "(every token and stage task destroyed exactly once, except tokens parked at tear-down: negation proved, recorded finding), and the "
+         "destroyed-once ledger for all clients. Tie: E-SHIM on the whole instrumented runtime with fault schedules (k-th body / range split / "
+         "copy / join / item copy throws; bodies that first complete an inner construct) over 32 programs; event logs validated against the "
+         "models; white-box pipeline buffer snapshots, interposed token and small-object allocators; happens-before monitor for the exception "
+         "object and the bodies' writes; independent monitors.",
+    note="Trusted: Lean kernel, standard axioms, E-SHIM runtime, harness/c03, checks/c03_skel.py (pattern-based skeleton extraction), sampled "
+         "correspondence. Five genuine defects are listed in KNOWN_FINDINGS.txt (throwing join, throwing range split in deterministic reduce, "
+         "throwing message copy in flow graph, cancelled pipeline leaking parked tokens, throwing task constructor leaking its small object). "
+         "Pipeline buffer discipline is over-approximated (C07's); graph log validation is wrapper-level; C++ unwinding inside user code is not "
+         "modelled.",
+    technique="Lean 4 proof (interleaving models of the exception path and of its clients; layering: wrapper steps are dispatcher steps or identity) + "
+              "E-GEN skeletons decided in Lean + E-SHIM fault x thread schedules with event-log refinement + allocator ledgers + happens-before "
+              "recomputation",
     design="§3 C03, §4")
 
 CLAIMED["C14"] = dict(
